@@ -87,22 +87,22 @@ Notation BE ea := (ovr %s ea (Bty fwidth)).
                 prem.append("rng 24 %s" % n)      # every 32-bit parameter of the interpreters is a bus address
             elif t in WIDTH:
                 prem.append("rng %d %s" % (WIDTH[t], n))
-        rt = "rng %d r" % WIDTH[f["ret"]] if f["ret"] in WIDTH else "True"
+        # a 32-bit result of the interpreters' bus helpers is a 24-bit address (nRead24_wrap / EaRead24_wrap)
+        rt = ("rng 24 r" if f["ret"] == "w32" else "rng %d r" % WIDTH[f["ret"]]) if f["ret"] in WIDTH else "True"
         call = " ".join([f["name"]] + [n for n, _ in ps] + ["s"])
         return "%s, %sInv (BE %s) s -> safe (fun r s' => %s /\\ Inv (BE %s) s') (%s)" % (
             quant, "".join(p + " -> " for p in prem), ea, rt, ea, call)
 
     def tbl_lemma():
-        cs = sorted(set(procs))
-        alts = " | ".join("eapply safe_%s" % c for c in cs)  # here the head is a concrete routine after reduction of tbl_proc
-        out.append("""Lemma safe_tbl_proc : forall op s, rng 8 op -> Inv (BE (rng 24)) s -> safe (fun r s' => True /\\ Inv (BE (rng 24)) s') (tbl_proc op s).
-Proof.
-  intros op s Hop. revert s. pattern op. apply all_bytes; [|exact Hop].
-  cbv [upto app Z.of_nat Pos.of_succ_nat Pos.succ].
-  repeat (apply Forall_cons || apply Forall_nil);
-    (intros s0 Hi0; cbv beta iota delta [tbl_proc]; first [ %s ]; eassumption).
-Qed.
-""" % alts)
+        lines = ["Lemma safe_tbl_proc : forall op s, rng 8 op -> Inv (BE (rng 24)) s -> safe (fun r s' => True /\\ Inv (BE (rng 24)) s') (tbl_proc op s).",
+                 "Proof.",
+                 "  intros op s Hop. revert s. pattern op. apply all_bytes; [|exact Hop].",
+                 "  cbv [upto app Z.of_nat Pos.of_succ_nat Pos.succ]."]
+        for k, pname in enumerate(procs):
+            lines.append("  apply Forall_cons; [ intros s0 Hi0; change (tbl_proc %d s0) with (%s s0); eapply safe_%s; exact Hi0 | ]." % (k, pname, pname))
+        lines.append("  apply Forall_nil.")
+        lines.append("Qed.\n")
+        out.append("\n".join(lines))
         lemmas.append("safe_tbl_proc")
 
     for f in funcs:
